@@ -131,6 +131,23 @@ pub fn witness_specs() -> Vec<HSpec> {
 
 pub fn cases(seed: u64, tier: &str) -> Vec<HSpec> {
     let mut v = vec![];
+    // monitor-only: a bound triple carried around the window three times (see run_nft_history)
+    for (i, gp) in [4u64, 5, 7].iter().enumerate() {
+        v.push(HSpec {
+            gp: *gp,
+            len: 3 * (gp + 1) + 3,
+            fee: 0,
+            gen: vec![(9, 1_000_000), (9, 2_000_000), (1, 50_000_000), (2, 60)],
+            pool: vec![],
+            fixed_sides: true,
+            p_spend: 0,
+            gt_rand: false,
+            prune: 1_000_000,
+            fork: None,
+            seed: seed.wrapping_add(900 + i as u64),
+            name: format!("nft-{}", i),
+        });
+    }
     // corpus first
     if let Ok(dir) = std::fs::read_dir(format!("{}/corpus/C13", verif_root())) {
         let mut files: Vec<_> = dir.filter_map(|e| e.ok()).map(|e| e.path()).filter(|p| p.extension().map(|x| x == "ops").unwrap_or(false)).collect();
@@ -901,7 +918,134 @@ fn own_block_not_ok(em: &mut Emit<'_>, gp: u64, node: &Node, ledger: &Ledger, ti
     }
 }
 
+/// MONITOR-ONLY history (the Lean model of the rebroadcast pass covers single outputs, not bound triples): the node's wallet
+/// turns one of its outputs into an NFT-style triple [Bound, payload, Bound] in block 2 and nobody touches it again; the chain
+/// grows until the triple has gone around the retention window `wraps` times. Whenever the block that holds the live triple
+/// leaves the window, the next block must carry exactly ONE rebroadcast transaction for it, inputs and outputs
+/// [Bound, payload, Bound] for the same keys, the bound slips (markers, not currency) staying bound.
+async fn run_nft_history(spec: &HSpec, emit: &mut dyn FnMut(&str, &str)) {
+    let mut em = Emit(emit);
+    let gp = spec.gp;
+    let replay = serde_json::json!({"suite": "atr", "history": spec.to_line()});
+    em.hist("history:nft-triple");
+    let cfg = Cfg::new(gp, HEARTBEAT, spec.prune);
+    let mut f = Factory::new(spec.seed, cfg.clone());
+    let genesis = f.make_genesis(&spec.gen).await;
+    let mut node = Node::new(9, cfg.clone());
+    node.add_block(genesis.clone()).await;
+    let mut chain: Vec<Block> = vec![genesis.clone()];
+    let nft_tx = {
+        let mut w = node.wallet_lock.write().await;
+        let input = w.slips.values().filter(|sl| !sl.spent && sl.amount > 10_000).map(|sl| (sl.amount, sl.block_id, sl.tx_ordinal, sl.slip_index)).min();
+        let Some((amount, block_id, tx_ordinal, slip_index)) = input else {
+            em.hist("nft:wallet-has-no-output");
+            return;
+        };
+        match w.create_bound_transaction(amount, block_id, tx_ordinal, slip_index as u64, 5_000, vec![], &key(2).0, None, 1, gp, "verif".to_string()).await {
+            Ok(mut t) => {
+                t.generate(&key(9).0, 0, 0);
+                t
+            }
+            Err(_) => {
+                em.hist("nft:create-failed");
+                return;
+            }
+        }
+    };
+    let is_triple = |v: &[Slip], j: usize| j + 2 < v.len() + 0 && v[j].slip_type == SlipType::Bound && v[j + 1].slip_type != SlipType::Bound && v[j + 2].slip_type == SlipType::Bound;
+    // (block id of creation, the three slips) of the live triple
+    let mut live: Option<(u64, [Slip; 3])> = None;
+    let mut rng = Rng::new(spec.seed ^ 0x4E46);
+    let mut wraps_seen = 0u64;
+    for n in 2..=spec.len {
+        let tip = chain.last().unwrap().clone();
+        let ts = tip.timestamp + 2 * HEARTBEAT + 1;
+        let txs = if n == 2 { vec![nft_tx.clone()] } else { vec![] };
+        let gt = Some(gt_tx(&mut rng, &tip, 1, ts));
+        let b = match create_on(&node, tip.hash, ts, 1, txs, gt).await {
+            Ok(b) => b,
+            Err(_) => {
+                em.hist("nft:create-block-failed");
+                return;
+            }
+        };
+        let cls = match guarded_async(node.add_block(b.clone())).await {
+            Ok(r) => add_result_class(&r),
+            Err(_) => "panic",
+        };
+        em.hist(&format!("nft:block:{}", cls));
+        if cls != "added_lc" {
+            if cls == "panic" || cls == "invalid" {
+                em.fail(&format!("C13/nft/own-block-{}", if cls == "panic" { "crashes-node" } else { "rejected" }), &format!("block {} of the triple history: add_block answered {}", n, cls), &replay);
+            }
+            return;
+        }
+        // what this block did with bound slips
+        let due = live.as_ref().map(|(at, _)| at + gp + 1 == n).unwrap_or(false);
+        let mut groups = 0;
+        for t in atr_txs(&b) {
+            let any_bound = t.from.iter().chain(t.to.iter()).any(|sl| sl.slip_type == SlipType::Bound);
+            if !any_bound {
+                continue;
+            }
+            let shape_ok = t.from.len() == 3 && t.to.len() == 3 && is_triple(&t.from, 0) && is_triple(&t.to, 0) && t.to[1].slip_type == SlipType::ATR
+                && (0..3).all(|i| t.from[i].public_key == t.to[i].public_key) && t.from[0].amount == t.to[0].amount && t.from[2].amount == t.to[2].amount;
+            if !shape_ok {
+                em.fail(
+                    "C13/nft/bound-slip-rebroadcast-outside-its-triple",
+                    &format!("block {}: a rebroadcast transaction touches a bound slip but is not [Bound, payload, Bound] -> [Bound, ATR, Bound] for the same keys: inputs {:?} outputs {:?}",
+                        n, t.from.iter().map(|sl| (sl.slip_type as u8, sl.amount)).collect::<Vec<_>>(), t.to.iter().map(|sl| (sl.slip_type as u8, sl.amount)).collect::<Vec<_>>()),
+                    &replay,
+                );
+                continue;
+            }
+            match &live {
+                Some((_, tr)) if due && (0..3).all(|i| ident(&tr[i]) == ident(&t.from[i]) || (i == 1 && tr[1].public_key == t.from[1].public_key)) => {
+                    groups += 1;
+                    live = Some((n, [t.to[0].clone(), t.to[1].clone(), t.to[2].clone()]));
+                }
+                _ => em.fail("C13/nft/triple-rebroadcast-not-due", &format!("block {}: a bound triple is rebroadcast that is not the live one leaving the window", n), &replay),
+            }
+        }
+        if n == 2 {
+            if let Some(t) = b.transactions.iter().find(|t| t.transaction_type == TransactionType::Bound) {
+                if let Some(j) = (0..t.to.len()).find(|j| is_triple(&t.to, *j)) {
+                    live = Some((2, [t.to[j].clone(), t.to[j + 1].clone(), t.to[j + 2].clone()]));
+                    em.hist("nft:triple-created");
+                }
+            }
+            if live.is_none() {
+                em.hist("nft:no-triple-in-block-2");
+                return;
+            }
+        } else if due {
+            wraps_seen += 1;
+            em.hist(&format!("nft:wrap-{}", wraps_seen.min(3)));
+            let k = multiplier_k(gp, &tip);
+            let dust = live.as_ref().map(|(_, tr)| (tr[1].amount as u128) * (1 + k as u128) == 0).unwrap_or(false);
+            if groups != 1 && !dust {
+                em.fail("C13/nft/triple-not-handled-exactly-once", &format!("block {}: the live triple left the window and {} rebroadcast transactions carry it", n, groups), &replay);
+                return;
+            }
+            // the bound slips never turn into currency: no spendable non-bound output was created from a bound input
+            if let Some((_, tr)) = &live {
+                for i in [0usize, 2] {
+                    if tr[i].slip_type != SlipType::Bound {
+                        em.fail("C13/nft/bound-slip-became-currency", &format!("block {}: a bound slip of the triple came back with slip type {}", n, tr[i].slip_type as u8), &replay);
+                    }
+                }
+            }
+        }
+        chain.push(b);
+    }
+    em.hist("history-ended:full-length");
+}
+
 pub async fn run_history(spec: &HSpec, emit: &mut dyn FnMut(&str, &str)) {
+    if spec.name.starts_with("nft") {
+        run_nft_history(spec, emit).await;
+        return;
+    }
     let mut em = Emit(emit);
     let ks = Keys::new();
     let gp = spec.gp;
